@@ -385,6 +385,7 @@ type Terminal struct {
 	killChan           chan killRequest
 	previewSeq         int64
 	previewKiller      func()
+	readerKiller       func()
 	previewStopped     bool
 	previewKillerMutex sync.Mutex
 	serverInputChan    chan []*action
@@ -5138,6 +5139,12 @@ func (t *Terminal) Loop() error {
 						os.WriteFile(t.proxyScript+becomeSuffix, []byte(data), 0600)
 						req(reqBecome)
 					} else {
+						// The process is about to be replaced: nobody will be
+						// around to stop the commands it has started
+						t.killPreviewNow()
+						if t.readerKiller != nil {
+							t.readerKiller()
+						}
 						t.executor.Become(t.ttyin, t.environ(), command)
 					}
 				}
